@@ -232,6 +232,16 @@ Definition dispatch_frontends (name : list byte) (a : list (list byte)) : option
   else if is name "fe_eval3" then
     let '(ok, r) := um_req3 {| q3_key := []; q3_nkid := []; q3_enc := []; q3_sig := [] |} (arg a 1) in
     Some (consistent (arg a 0) (if ok && negb (Nat.ltb (length (q3_enc r)) 32) then Ok tt else Err))
+  else if is name "eval3" then
+    (* args: data cfg kid | oracle: open_ok plaintext parse_key sig_ok sign_ok | registered names *)
+    let data := arg a 0 in
+    let r := snd (um_req3 {| q3_key := []; q3_nkid := []; q3_enc := []; q3_sig := [] |} data) in
+    let res := eval3 (fun _ _ _ => if flag (arg a 3) then Some (arg a 4, []) else None) (arg a 1) (arg a 2)
+                     (fun _ => flag (arg a 5)) (fun _ _ _ => flag (arg a 6))
+                     (fun nm => existsb (bytes_eqb nm) (skipn 8 a))
+                     (fun _ _ _ => if flag (arg a 7) then Some ([], []) else None) data in
+    Some [match res with Ok _ => st_ok | Err => st_none | Panic => st_panic end;
+          aad (arg a 1) (arg a 2) (q3_key r); signed_message r]
   else if is name "um_req5_go" then
     Some (match um_req5_go (arg a 0) with
           | Ok (k, e, _) => [st_ok; num1 k; nat8 (length e); concat e]
